@@ -10,11 +10,9 @@ structure Sess where
   model  : Option HashSet := none
   spec   : Option Spec.Set := none
   iter   : Option HIter := none
-  canRemove : Bool := false
   stodo  : List Spec.Key := []
   slast  : Option Spec.Key := none
   mem    : Mem := {}
-  deflt  : Bool := false
 
 def fmtSet (l : List Spec.Key) : String := fmtList (sortNat (l.map HT.encKey))
 
@@ -29,7 +27,7 @@ def obsS (s : Sess) : String :=
 def physM (s : Sess) (extra : String) : String :=
   match s.model with
   | none => "-"
-  | some t => fmtTable t.table s.iter s.canRemove ++ extra
+  | some t => fmtTable t.table s.iter ++ extra
 def invM (s : Sess) : Bool := match s.model with | none => true | some t => decide (t.Inv s.cfg)
 
 def lines (s : Sess) (hdS hdM : String) (extra : String := "") : Sess × String × String :=
@@ -41,14 +39,14 @@ def rmout (noout : Bool) (st : Stat) (out : Option Nat) : String :=
   | none => ""
 
 def step (s : Sess) (c : Cmd) : Sess × String × String :=
-  let m := s.mem.begin (if s.deflt || c.op == "new_default" then [] else c.sched)
+  let m := s.mem.begin c.sched
   match c.op with
   | "new" | "new_default" =>
     let cfg := if c.op == "new" then mkCfg c else defaultCfg
     let cap := if c.op == "new" then c.nat "cap" 16 else Gen.HASHTABLE_DEFAULT_CAPACITY
-    let (st, t, m) := HashSet.new cfg cap m
+    let (st, t, m) := HashSet.new cfg cap (if c.op == "new" then .conf else .libc) m
     let (sst, sp) := if c.fired > 0 then (Stat.errAlloc, none) else (Stat.ok, some [])
-    lines { cfg := cfg, model := t, spec := sp, mem := m, deflt := c.op == "new_default" } (fmtStat sst) (fmtStat st)
+    lines { cfg := cfg, model := t, spec := sp, mem := m } (fmtStat sst) (fmtStat st)
   | _ =>
   match s.model, s.spec with
   | some t, some sp =>
@@ -76,7 +74,7 @@ def step (s : Sess) (c : Cmd) : Sess × String × String :=
       lines { s with mem := m } s!"st=- cb={fmtSet sp}" s!"st=- cb={fmtList (sortNat ks)}" s!" ord={fmtList ks}"
     | "it_new" =>
       let (it, m) := t.iterInit m
-      lines { s with iter := some it, canRemove := false, stodo := sp, slast := none, mem := m } "st=-" "st=-"
+      lines { s with iter := some it, stodo := sp, slast := none, mem := m } "st=-" "st=-"
     | "it_next" =>
       match s.iter with
       | none => lines { s with mem := m } "st=- noiter" "st=- noiter"
@@ -92,17 +90,18 @@ def step (s : Sess) (c : Cmd) : Sess × String × String :=
             if s.stodo.contains k && sp.contains k then (s!"{fmtStat .ok}{kstr k}", s.stodo.erase k, some k)
             else (s!"{fmtStat .ok} k=not-pending", s.stodo, s.slast)
           | none => (s!"{fmtStat .ok} k=pending-elements-left", s.stodo, s.slast)
-        lines { s with iter := some it', canRemove := (if st == .ok then true else s.canRemove), stodo := todo, slast := last, mem := m } hdS hdM
+        lines { s with iter := some it', stodo := todo, slast := last, mem := m } hdS hdM
     | "it_remove" =>
-      match s.iter, s.canRemove with
-      | some it, true =>
+      match s.iter with
+      | some it =>
         let noout := c.nat "noout" 0 != 0
-        let (st, out, t', m) := t.iterRemove s.cfg it m
+        let (st, out, t', it', m) := t.iterRemove s.cfg it m
         let (sst, sp') : Stat × Spec.Set := match s.slast with
           | some k => if sp.contains k then (.ok, sp.erase k) else (.errValueNotFound, sp)
           | none => (.errValueNotFound, sp)
-        lines { s with model := some t', spec := some sp', canRemove := false, mem := m } (fmtStat sst) (fmtStat st) (rmout noout st out)
-      | _, _ => lines { s with mem := m } "st=- noiter" "st=- noiter"
+        let last := if sst == .ok then none else s.slast
+        lines { s with model := some t', spec := some sp', iter := some it', slast := last, mem := m } (fmtStat sst) (fmtStat st) (rmout noout st out)
+      | none => lines { s with mem := m } "st=- noiter" "st=- noiter"
     | "destroy" =>
       lines { cfg := s.cfg, mem := t.destroy m } "st=-" "st=-"
     | _ => lines { s with mem := m } "st=- badop" "st=- badop"
